@@ -236,8 +236,13 @@ def r5_migration(ctx):
         def mig(run, args, kwargs, node, fr):
             migs.append((vkey(args[0]).strip("`"), args[1]))
             return args[2]
+        awc = []
+
+        def awc_model(run, a, k, n, f):
+            awc.append((sorted(getattr(w, "name", vkey(w)) for w in a[1]) if isinstance(a[1], list) else vkey(a[1]), a[2]))
+            return []
         ip = Interp(repo, call_models={"cascade.scheduler.assign.migrate_to_component": mig,
-                                       "cascade.scheduler.assign.assign_within_component": lambda run, a, k, n, f: []})
+                                       "cascade.scheduler.assign.assign_within_component": awc_model})
         env = {"state.components": comps, "state.host2component": dict(h2c), "state.idle_workers": {W1, W2, W3}}
         paths = ip.explore(fi, env=env)
         ctx.evals(len(paths))
@@ -249,6 +254,12 @@ def r5_migration(ctx):
         good = set(got) == set(expect) and all((got[h] in e) if isinstance(e, set) else got[h] == e for h, e in expect.items())
         if good and isinstance(next(iter(expect.values()), None), set):
             good = len(set(got.values())) == 2  # round robin over the live components
+        live = {vkey(h).strip("`"): c for h, c in h2c.items() if c is not None and comps[c].fields["weight"] > 0}
+        step1 = [(ws, c) for ws, c in awc if any(f"W_`{h}`_w0" in ws for h in live)]
+        if good and sorted((ws[0], c) for ws, c in step1 if isinstance(ws, list)) != sorted((f"W_`{h}`_w0", c) for h, c in live.items()):
+            ctx.violation("C03.R5", fi.qual, loc(fi), f"assignment within live components: {name}",
+                          f"model '{name}': idle workers of hosts whose component still has work {live} must be offered to assign_within_component for that component; observed calls {awc}")
+            continue
         if not good:
             ctx.violation("C03.R5", fi.qual, loc(fi), f"migration: {name}",
                           f"model '{name}': hosts migrated {got}, expected {expect} (only hosts without live component move, only to components with weight > 0)")
@@ -258,3 +269,55 @@ def r5_migration(ctx):
 
 RULES = [r1_shutdown_postdominates, r2_wait_only_when_awaitable, r_predicates, r3_counter_sites, r4_mirror_maps, r5_migration,
          r_no_downgrade, r2_gpu_cpu_lists, r1_pairing_after_yield, r4_consider_computable, r7_reidle]
+
+
+def r6_loop_wiring(ctx):
+    """C03.R6: one round of the controller loop wires its phases together: every assignment produced by assign() is acted upon (in order)
+    and handed to plan(); the queues are flushed; the events returned by recv_events are the ones given to notify."""
+    repo = ctx.repo
+    fi = repo.func(f"{IMPL}.run")
+    ctx.analysed(fi.qual)
+    from ..terms import Sym
+    A1, A2 = Atom("A1"), Atom("A2")
+    EV = [Atom("E1"), Atom("E2")]
+    D = ds("D", "T")
+    models = {
+        "cascade.scheduler.api.initialize": lambda run, a, k, n, f: Sym("state"),
+        "cascade.scheduler.api.assign": lambda run, a, k, n, f: [A1, A2],
+        f"{BR}.recv_events": lambda run, a, k, n, f: list(EV),
+        f"{BR}.get_environment": lambda run, a, k, n, f: Sym("ENV"),
+    }
+    ip = Interp(repo, inline=PRED, max_while=1, call_models=models)
+    paths = ip.explore(fi, env={"state.computable": 1, "state.ongoing_total": 1, "state.outputs": {D: None}})
+    ctx.evals(len(paths))
+    n = 0
+    for p in paths:
+        if p.exit[0] == "raise":
+            continue
+        n += 1
+        calls = [(e.data["qual"], e.data["args"]) for e in p.effects if e.kind == "call" and e.data.get("qual")]
+        acts = [a for q, a in calls if q == "cascade.controller.act.act"]
+        plans = [a for q, a in calls if q == "cascade.scheduler.api.plan"]
+        fl = [a for q, a in calls if q == "cascade.controller.act.flush_queues"]
+        nt = [a for q, a in calls if q == "cascade.controller.notify.notify"]
+        asg = [a for q, a in calls if q == "cascade.scheduler.api.assign"]
+        order = [q.rsplit(".", 1)[-1] for q, a in calls if q.rsplit(".", 1)[-1] in ("act", "plan", "flush_queues", "recv_events", "notify")]
+        checks = {
+            "assign(state, job, env)": len(asg) == 1 and [vkey(x) for x in asg[0]] == ["state", "job", "ENV"],
+            "act(bridge, state, assignment) for every assignment, in order": [[vkey(x) for x in a] for a in acts] == [["bridge", "state", "`A1`"], ["bridge", "state", "`A2`"]],
+            "plan(state, all assignments of the round)": len(plans) == 1 and vkey(plans[0][0]) == "state" and plans[0][1] == [A1, A2],
+            "flush_queues(bridge, state)": len(fl) == 1 and [vkey(x) for x in fl[0]] == ["bridge", "state"],
+            "notify(state, job, the received events, reporter)": len(nt) == 1 and vkey(nt[0][0]) == "state" and vkey(nt[0][1]) == "job" and nt[0][2] == EV,
+            "phase order act* < plan < flush < wait < notify": order == ["act", "act", "plan", "flush_queues", "recv_events", "notify"],
+        }
+        for what, good in checks.items():
+            if good:
+                ctx.ok("C03.R6", loc(fi), what)
+            else:
+                ctx.violation("C03.R6", fi.qual, loc(fi), what.split("(")[0].strip(),
+                              f"one controller round with two assignments and two events: violated — {what}; observed act{[[vkey(x) for x in a] for a in acts]} "
+                              f"plan{[[vkey(x)[:40] for x in a] for a in plans]} notify{[[vkey(x)[:30] for x in a] for a in nt]} order {order}")
+    ctx.floor("C03.R6.paths", n, 1)
+
+
+RULES.append(r6_loop_wiring)
